@@ -16,6 +16,15 @@ well-typed values, `numeric_ties_not_transitive` a non-strict violation inside t
   bindings_total_preorder        multi-key comparison of rows is a total preorder when every key column is
   sorted_perm / sorted_respects_lt   ORDER BY output (for any sort meeting the std contract) is a sorted
                                  permutation and never puts `b` before `a` when `a < b` in SPARQL
+  order_total_preorder_partial_kinds   … also with blank nodes and IRIs next to one class of literals
+  sorted_first_key / sorted_kind_order / sorted_respects_lt_first_key / sorted_later_keys_break_ties
+                                 the same for ANY key list (ASC or DESC first key, later keys on ties), whole sequence
+  NeverPanics                    FULL statement of "sorting never panics": `never_panics_iff_flag` shows it holds iff
+                                 `naive_to_fixed` no longer says `unreachable!()` (flag regenerated from /repo: fixed in
+                                 c9027e0, so `never_panics : NeverPanics` holds; `datetime_flags_pinned` fails on a
+                                 regression and `range_end_panic_witness` names the inputs), `order_by_panics_iff`
+                                 characterises the panicking comparisons, `never_panics_partial` /
+                                 `bindings_never_panic_partial` prove the clause away from the ends of chrono's range
   repaired_total_preorder        the FULL statement for a repaired comparator (class rank first, exact
                                  comparison inside a class), with repaired_kind_order and
                                  repaired_respects_cmp_partial — documents the fix
@@ -172,14 +181,8 @@ theorem respects_cmp (a b : Term) (o : Ordering) (h : sparqlCmp a b = some o) : 
 
 /-! ## `kind_order`: unbound < blank node < IRI < literal -/
 
-/-- rank of a key value; `none` for quoted triples / variables (not ranked by the property) -/
-def kindRank : Option Term → Option Nat
-  | none => some 0
-  | some (.bnode _) => some 1
-  | some (.iri _) => some 2
-  | some (.lit _ _) => some 3
-  | some (.lang _ _) => some 3
-  | _ => none
+-- `kindRank` (Model/OrderBy.lean, the definition the driver's `o.ko` oracle uses): rank of a key value; `none` for
+-- quoted triples / variables (not ranked by the property)
 
 theorem kind_order (v1 v2 : Option Term) (r1 r2 : Nat) (h1 : kindRank v1 = some r1) (h2 : kindRank v2 = some r2)
     (hlt : r1 < r2) : keyCmp v1 v2 = .lt := by
@@ -199,6 +202,79 @@ theorem kind_order (v1 v2 : Option Term) (r1 r2 : Nat) (h1 : kindRank v1 = some 
         | (simp only [sparqlOrderBy, sparqlCmp, tryFromTerm, isLiteral]
            simp
            exact C02.cmp_kind _ _ (by simp [Term.kind, Kind.rank]))
+
+/-! ## blank nodes and IRIs next to one class of literals -/
+
+/-- kind rank of a bound key value (4 = not ranked) -/
+def rankOf (t : Term) : Nat := (kindRank (some t)).getD 4
+
+theorem rankOf_literal {t : Term} (h : rankOf t = 3) : isLiteral t = true := by
+  cases t <;> simp [rankOf, kindRank] at h <;> rfl
+
+theorem novalue_of_rank {t : Term} (h : rankOf t ≠ 3) : tryFromTerm t = none := by
+  cases t <;> first | rfl | (simp [rankOf, kindRank] at h)
+
+/-- across kinds the rank decides, whatever the values are -/
+theorem cmp_of_rank_lt (a b : Term) (ha : (kindRank (some a)).isSome) (hb : (kindRank (some b)).isSome)
+    (h : rankOf a < rankOf b) : cmp a b = .lt := by
+  obtain ⟨r1, h1⟩ := Option.isSome_iff_exists.1 ha
+  obtain ⟨r2, h2⟩ := Option.isSome_iff_exists.1 hb
+  have := kind_order (some a) (some b) r1 r2 h1 h2 (by simpa [rankOf, h1, h2] using h)
+  exact this
+
+/-- PARTIAL form of `OrderTotalPreorder`, stronger than `order_total_preorder_partial`: a key column may hold blank
+nodes and IRIs next to literals of ONE comparison class (blank nodes and IRIs never take part in a cycle: their
+kind rank decides) -/
+theorem order_total_preorder_partial_kinds (S : Term → Prop) (hwf : ∀ t, S t → t.WF = true)
+    (hk : ∀ t, S t → (kindRank (some t)).isSome) (h : OneClass (fun t => S t ∧ isLiteral t = true)) :
+    TotalPreorderOn cmp S := by
+  have hclass : ∀ k, TotalPreorderOn cmp (fun a => S a ∧ rankOf a = k) := by
+    intro k
+    by_cases h3 : k = 3
+    · subst h3
+      exact (order_total_preorder_partial _ h).mono (fun a ha => ⟨ha.1, rankOf_literal ha.2⟩)
+    · exact order_total_preorder_partial _ (.termOrdered (fun t ht =>
+        ⟨hwf t ht.1, .novalue t (novalue_of_rank (by rw [ht.2]; exact h3))⟩))
+  refine TotalPreorderOn.of_factor (lexRank rankOf cmp S hclass) id (fun _ h => h) ?_
+  intro a b ha hb
+  simp only [id]
+  rcases Nat.lt_trichotomy (rankOf a) (rankOf b) with hlt | heq | hgt
+  · rw [Nat.compare_eq_lt.2 hlt, cmp_of_rank_lt a b (hk a ha) (hk b hb) hlt]; rfl
+  · rw [heq, Nat.compare_eq_eq.2 rfl]; rfl
+  · rw [Nat.compare_eq_gt.2 hgt]
+    have hba := cmp_of_rank_lt b a (hk b hb) (hk a ha) hgt
+    -- one of the two has no value (ranks differ, so not both are literals): the comparison is `Term::cmp`, which swaps
+    have hterm : ∀ x y : Term, x.WF = true → y.WF = true → (tryFromTerm x = none ∨ tryFromTerm y = none) →
+        cmp x y = termCmp x y := by
+      intro x y hx hy hn
+      rcases hn with hn | hn
+      · exact cmp_novalue_left x y hx hy hn
+      · exact cmp_novalue_right x y hx hy hn
+    have hn : tryFromTerm a = none ∨ tryFromTerm b = none := by
+      by_cases h3 : rankOf b = 3
+      · have : rankOf a ≠ 3 := by
+          have hle : rankOf a ≤ 3 := by
+            obtain ⟨r, hr⟩ := Option.isSome_iff_exists.1 (hk a ha)
+            cases a <;> simp [rankOf, kindRank] at hr ⊢
+          omega
+        exact Or.inl (novalue_of_rank this)
+      · exact Or.inr (novalue_of_rank h3)
+    rw [hterm a b (hwf a ha) (hwf b hb) hn, C02.cmp_swap b a (hwf b hb) (hwf a ha),
+      ← hterm b a (hwf b hb) (hwf a ha) hn.symm, hba]
+    rfl
+
+-- non-vacuity: an IRI, a blank node and two exact numbers in one column
+example : TotalPreorderOn cmp (fun t => t = .iri "http://ex.org/a".toList ∨ t = .bnode "b".toList ∨
+    t = xlit "9" "integer" ∨ t = xlit "10.50" "decimal") := by
+  apply order_total_preorder_partial_kinds
+  · rintro t (rfl | rfl | rfl | rfl) <;> decide
+  · rintro t (rfl | rfl | rfl | rfl) <;> decide
+  · refine .exactNum ?_
+    rintro t ⟨(rfl | rfl | rfl | rfl), hl⟩
+    · simp [isLiteral] at hl
+    · simp [isLiteral] at hl
+    · exact ⟨.nativeInt 9, (9, 0), by decide, rfl⟩
+    · exact ⟨.decimal 1050 2, (1050, 2), by decide, rfl⟩
 
 /-! ## `desc_reverse`, `lexicographic_keys` -/
 
@@ -323,6 +399,76 @@ theorem sorted_respects_lt (sort) (hs : SortContract sort) (e : Str) (rows : Lis
     simp only [rowCmp, cmpBindingsWith, keyCmp, hx, hy, cmp]
     cases sparqlOrderBy tx (some ty) <;> rfl
   rw [this]; exact h2
+
+/-! ## sequence level for any key list: first key in its direction, kind order, ties -/
+
+/-- sequence level, any key list: in the output no solution precedes one that the FIRST criterion (direction
+applied) puts strictly before it -/
+theorem sorted_first_key (sort) (hs : SortContract sort) (e : Str) (desc : Bool) (rest : List (Str × Bool))
+    (rows : List Binding) (h : ∀ e' d', (e', d') ∈ (e, desc) :: rest → OneClass (column (· ∈ rows) e')) :
+    (orderBy sort ((e, desc) :: rest) rows).Pairwise (fun x y => x ∈ rows ∧ y ∈ rows ∧ critCmp e desc x y ≠ .gt) := by
+  have hp := (sorted_perm sort hs ((e, desc) :: rest) rows).1
+  have hsorted := (sorted_perm sort hs ((e, desc) :: rest) rows).2 h
+  refine List.pairwise_iff_forall_sublist.2 ?_
+  intro x y hxy
+  have hne := List.pairwise_iff_forall_sublist.1 hsorted hxy
+  refine ⟨hp.mem_iff.1 (hxy.subset (by simp)), hp.mem_iff.1 (hxy.subset (by simp)), fun hgt => hne ?_⟩
+  have := lexicographic_keys_strict x y e desc rest (by rw [hgt]; decide)
+  rw [rowCmp, this, hgt]
+
+/-- "unbound < blank node < IRI < literal (reversed for DESC)" for the whole output sequence and the first key -/
+theorem sorted_kind_order (sort) (hs : SortContract sort) (e : Str) (desc : Bool) (rest : List (Str × Bool))
+    (rows : List Binding) (h : ∀ e' d', (e', d') ∈ (e, desc) :: rest → OneClass (column (· ∈ rows) e')) :
+    (orderBy sort ((e, desc) :: rest) rows).Pairwise
+      (fun x y => ∀ r1 r2, kindRank (eval e x) = some r1 → kindRank (eval e y) = some r2 →
+        ¬ (if desc then r1 < r2 else r2 < r1)) := by
+  have hpre := keyCmp_totalPreorder _ (order_total_preorder_partial _ (h e desc (by simp)))
+  refine (sorted_first_key sort hs e desc rest rows h).imp ?_
+  rintro x y ⟨hx, hy, hne⟩ r1 r2 h1 h2 hlt
+  apply hne
+  have mx : ∀ t, eval e x = some t → column (· ∈ rows) e t := fun t ht => ⟨x, hx, ht⟩
+  have my : ∀ t, eval e y = some t → column (· ∈ rows) e t := fun t ht => ⟨y, hy, ht⟩
+  cases desc with
+  | false =>
+    simp only [Bool.false_eq_true, if_false] at hlt
+    have := kind_order (eval e y) (eval e x) r2 r1 h2 h1 hlt
+    simp only [critCmp, Bool.false_eq_true, if_false]
+    rw [hpre.swap (eval e y) (eval e x) my mx, this]; rfl
+  | true =>
+    simp only [if_true] at hlt
+    have := kind_order (eval e x) (eval e y) r1 r2 h1 h2 hlt
+    simp only [critCmp, if_true, this]; rfl
+
+/-- "values that SPARQL's `<` can compare appear in that order (reversed for DESC)" for the whole output sequence
+and the first key of any key list -/
+theorem sorted_respects_lt_first_key (sort) (hs : SortContract sort) (e : Str) (desc : Bool) (rest : List (Str × Bool))
+    (rows : List Binding) (h : ∀ e' d', (e', d') ∈ (e, desc) :: rest → OneClass (column (· ∈ rows) e')) :
+    (orderBy sort ((e, desc) :: rest) rows).Pairwise
+      (fun x y => ∀ tx ty, eval e x = some tx → eval e y = some ty →
+        ¬ (if desc then sparqlLt tx ty else sparqlLt ty tx)) := by
+  have hpre := order_total_preorder_partial _ (h e desc (by simp))
+  refine (sorted_first_key sort hs e desc rest rows h).imp ?_
+  rintro x y ⟨hx, hy, hne⟩ tx ty h1 h2 hlt
+  apply hne
+  have hk : keyCmp (eval e x) (eval e y) = cmp tx ty := by rw [h1, h2]; rfl
+  cases desc with
+  | false =>
+    simp only [Bool.false_eq_true, if_false] at hlt
+    simp only [critCmp, Bool.false_eq_true, if_false, hk]
+    rw [hpre.swap ty tx ⟨y, hy, h2⟩ ⟨x, hx, h1⟩, respects_lt ty tx hlt]; rfl
+  | true =>
+    simp only [if_true] at hlt
+    simp only [critCmp, if_true, hk, respects_lt tx ty hlt]; rfl
+
+/-- "later keys break ties" for the whole output sequence: two solutions that tie on the first criterion are
+arranged by the remaining ones -/
+theorem sorted_later_keys_break_ties (sort) (hs : SortContract sort) (e : Str) (desc : Bool) (rest : List (Str × Bool))
+    (rows : List Binding) (h : ∀ e' d', (e', d') ∈ (e, desc) :: rest → OneClass (column (· ∈ rows) e')) :
+    (orderBy sort ((e, desc) :: rest) rows).Pairwise
+      (fun x y => critCmp e desc x y = .eq → rowCmp rest x y ≠ .gt) := by
+  refine ((sorted_perm sort hs ((e, desc) :: rest) rows).2 h).imp ?_
+  intro x y hne htie
+  rwa [rowCmp, lexicographic_keys_tie x y e desc rest htie] at hne
 
 /-! ## a repaired comparator: class rank first, exact comparison inside a class -/
 
@@ -489,5 +635,146 @@ example : sparqlLt (xlit "9" "integer") (xlit "10.5" "decimal") := by unfold spa
 example : repairedCmp (xlit "9" "integer") (xlit "10" "integer") = .lt ∧
     repairedCmp (xlit "10" "integer") (xlit "1a" "integer") = .lt ∧
     repairedCmp (xlit "9" "integer") (xlit "1a" "integer") = .lt := by decide
+
+/-! ## "sorting never panics" -/
+
+/-- FULL STATEMENT of the panic clause: no comparison of two key values panics -/
+def NeverPanics : Prop := ∀ a b : Term, sparqlCmpPanics a b = false
+
+/-- `heterogeneous_cmp(z, n)`: `naive_to_fixed(n, 14)` (always evaluated) or `naive_to_fixed(n, -14)` (evaluated
+unless `z < n - 14h`) leaves chrono's range -/
+def Overflows (z n : Int) : Prop :=
+  n - 14 * nsPerHour < chronoMin ∨ (n - 14 * nsPerHour ≤ z ∧ chronoMax < n + 14 * nsPerHour)
+
+theorem hetPanics_iff (z n : Int) : hetPanics z n = true ↔ Gen.dateTimeOffsetUnreachable = true ∧ Overflows z n := by
+  unfold hetPanics Overflows
+  simp only [Bool.and_eq_true, Bool.or_eq_true, decide_eq_true_eq, Bool.not_eq_true', decide_eq_false_iff_not, Int.not_lt]
+
+/-- exactly which comparisons panic: a timezoned against a non-timezoned dateTime whose ±14:00 translation
+overflows, and only while `naive_to_fixed` says `unreachable!()` -/
+theorem order_by_panics_iff (a b : Term) :
+    sparqlCmpPanics a b = true ↔
+      Gen.dateTimeOffsetUnreachable = true ∧ ∃ z n, Overflows z n ∧
+        ((tryFromTerm a = some (.dateTime (some (.zoned z))) ∧ tryFromTerm b = some (.dateTime (some (.naive n)))) ∨
+         (tryFromTerm a = some (.dateTime (some (.naive n))) ∧ tryFromTerm b = some (.dateTime (some (.zoned z))))) := by
+  unfold sparqlCmpPanics
+  cases ha : tryFromTerm a with
+  | none => simp
+  | some va =>
+    cases hb : tryFromTerm b with
+    | none => simp
+    | some vb =>
+      cases va <;> cases vb <;> simp only [SparqlValue.cmpPanics] <;> try (simp; done)
+      rename_i d1 d2
+      cases d1 <;> cases d2 <;> try (simp; done)
+      rename_i x y
+      cases x <;> cases y <;> simp only [XsdDateTime.cmpPanics, hetPanics_iff] <;> simp
+      intro _
+      exact ⟨fun h => ⟨_, _, h, rfl, rfl⟩, by rintro ⟨z, n, h, rfl, rfl⟩; exact h⟩
+
+/-- the panic does not depend on the order of the operands (nor, therefore, on ASC/DESC) -/
+theorem panics_symm (a b : Term) : sparqlCmpPanics a b = sparqlCmpPanics b a := by
+  rw [Bool.eq_iff_iff, order_by_panics_iff, order_by_panics_iff]
+  constructor <;> rintro ⟨hf, z, n, ho, ⟨h1, h2⟩ | ⟨h1, h2⟩⟩
+  · exact ⟨hf, z, n, ho, Or.inr ⟨h2, h1⟩⟩
+  · exact ⟨hf, z, n, ho, Or.inl ⟨h2, h1⟩⟩
+  · exact ⟨hf, z, n, ho, Or.inr ⟨h2, h1⟩⟩
+  · exact ⟨hf, z, n, ho, Or.inl ⟨h2, h1⟩⟩
+
+/-- a value outside the 14 h margins at the two ends of chrono's range -/
+def SafeRange (t : Term) : Prop :=
+  ∀ n, tryFromTerm t = some (.dateTime (some (.naive n))) → chronoMin + 14 * nsPerHour ≤ n ∧ n + 14 * nsPerHour ≤ chronoMax
+
+/-- PARTIAL form of `NeverPanics`: no panic as long as every non-timezoned dateTime keeps 14 h away from the ends
+of chrono's range (years -262142 … 262141 are always safe).  The missing obligation is exactly the margin. -/
+theorem never_panics_partial (a b : Term) (ha : SafeRange a) (hb : SafeRange b) : sparqlCmpPanics a b = false := by
+  rw [Bool.eq_false_iff]
+  intro h
+  obtain ⟨_, z, n, ho, ⟨_, h2⟩ | ⟨h1, _⟩⟩ := (order_by_panics_iff a b).1 h
+  · have := hb n h2; unfold Overflows at ho; omega
+  · have := ha n h1; unfold Overflows at ho; omega
+
+/-- rows: `cmp_bindings_with` reaches no panicking comparison when all key values are in the safe range -/
+theorem bindings_never_panic_partial (b1 b2 : Binding) (crit : List (Str × Bool))
+    (h1 : ∀ e t, eval e b1 = some t → SafeRange t) (h2 : ∀ e t, eval e b2 = some t → SafeRange t) :
+    cmpBindingsPanics b1 b2 crit = false := by
+  induction crit with
+  | nil => rfl
+  | cons p rest ih =>
+    obtain ⟨e, d⟩ := p
+    have hk : keyPanics (eval e b1) (eval e b2) = false := by
+      cases hx : eval e b1 <;> cases hy : eval e b2 <;> simp only [keyPanics]
+      exact never_panics_partial _ _ (h1 e _ hx) (h2 e _ hy)
+    simp [cmpBindingsPanics, hk, ih]
+
+def dtMinNaive : Term := .lit "-262143-01-01T00:00:00".toList xsdDateTime
+def dtMaxNaive : Term := .lit "262142-12-31T23:00:00".toList xsdDateTime
+def dtMaxZoned : Term := .lit "262142-12-31T23:30:00Z".toList xsdDateTime
+
+theorem value_dtMinNaive : tryFromTerm dtMinNaive = some (.dateTime (some (.naive chronoMin))) := by decide +kernel
+theorem value_dtMaxNaive : tryFromTerm dtMaxNaive = some (.dateTime (some (.naive (chronoMax - 3599999999999)))) := by
+  decide +kernel
+theorem value_dtMaxZoned : tryFromTerm dtMaxZoned = some (.dateTime (some (.zoned (chronoMax - 1799999999999)))) := by
+  decide +kernel
+theorem value_dtB : tryFromTerm dtB = some (.dateTime (some (.zoned 1704283200000000000))) := by decide +kernel
+
+/-- the two minimal failing inputs of finding C14-datetime-range-end-unreachable panic exactly as long as the
+source has the `unreachable!()` (flag regenerated from /repo) -/
+theorem range_end_panic_witness :
+    sparqlCmpPanics dtMinNaive dtB = Gen.dateTimeOffsetUnreachable ∧
+    sparqlCmpPanics dtMaxNaive dtMaxZoned = Gen.dateTimeOffsetUnreachable := by
+  constructor
+  · simp only [sparqlCmpPanics, value_dtMinNaive, value_dtB, SparqlValue.cmpPanics, XsdDateTime.cmpPanics, hetPanics]
+    cases Gen.dateTimeOffsetUnreachable <;> decide
+  · simp only [sparqlCmpPanics, value_dtMaxNaive, value_dtMaxZoned, SparqlValue.cmpPanics, XsdDateTime.cmpPanics, hetPanics]
+    cases Gen.dateTimeOffsetUnreachable <;> decide
+
+/-- the FULL panic clause holds exactly when `naive_to_fixed` no longer treats the overflow as unreachable: for the
+code before c9027e0 (flag `true`) it is refuted by `range_end_panic_witness`; since that fix (flag `false`) it holds
+for all inputs (`never_panics`) -/
+theorem never_panics_iff_flag : NeverPanics ↔ Gen.dateTimeOffsetUnreachable = false := by
+  constructor
+  · intro h
+    have := h dtMinNaive dtB
+    rw [range_end_panic_witness.1] at this
+    exact this
+  · intro hf a b
+    rw [Bool.eq_false_iff]
+    intro h
+    have := ((order_by_panics_iff a b).1 h).1
+    rw [hf] at this
+    cases this
+
+/-- the defects of `XsdDateTime::new` (fixed in 9f7e0fe) and of `naive_to_fixed` (fixed in c9027e0) stay fixed: a
+regression of any of the three regenerated flags fails this obligation -/
+theorem datetime_flags_pinned : Gen.dateTimeYearUnwrap = false ∧ Gen.dateTimeUnicodeDigits = false ∧
+    Gen.dateTimeOffsetUnreachable = false := ⟨rfl, rfl, rfl⟩
+
+/-- the FULL panic clause for the code as it is now: no comparison of two key values panics -/
+theorem never_panics : NeverPanics := never_panics_iff_flag.2 datetime_flags_pinned.2.2
+
+/-- hence no row comparison reaches a panic, for all rows and key lists -/
+theorem bindings_never_panic (b1 b2 : Binding) (crit : List (Str × Bool)) : cmpBindingsPanics b1 b2 crit = false := by
+  induction crit with
+  | nil => rfl
+  | cons p rest ih =>
+    obtain ⟨e, d⟩ := p
+    have hk : keyPanics (eval e b1) (eval e b2) = false := by
+      cases eval e b1 <;> cases eval e b2 <;> simp only [keyPanics]
+      exact never_panics _ _
+    simp [cmpBindingsPanics, hk, ih]
+
+-- the transcribed constants are chrono's `NaiveDate::MIN` / `MAX`
+example : chronoMinDay = daysFromCivil (-262143) 1 1 ∧ chronoMaxDay = daysFromCivil 262142 12 31 := by decide
+example : chronoMin = chronoMinDay * 86400 * 1000000000 ∧ chronoMax = (chronoMaxDay + 1) * 86400 * 1000000000 - 1 := by decide
+-- non-vacuity: ordinary dateTimes are in the safe range, the range ends are not
+example : SafeRange dtA ∧ SafeRange dtB := by
+  constructor <;> intro n h
+  · have : tryFromTerm dtA = some (.dateTime (some (.naive 1704110400000000000))) := by decide +kernel
+    rw [this] at h; cases h; decide
+  · rw [value_dtB] at h; cases h
+example : ¬ SafeRange dtMinNaive := fun h => by
+  have := (h _ value_dtMinNaive).1
+  revert this; decide
 
 end SophiaProofs.C14
